@@ -1,35 +1,30 @@
-//! Engine E4: a slice of C17's cases executed under Miri (`cargo +nightly miri run --bin vmiri -- <seed> <idx> <n>`).
+//! Engine E4: a slice of C17's cases executed under Miri:
+//!   cargo +nightly miri run --bin vmiri -- <cases.json> <idx> <total>
+//! The cases are generated natively by `vcheck miri-cases` from the same proptest generators and seed; this
+//! binary only deserialises and executes them, so Miri's time goes into grenad, not into the generators.
 //! Miri is the oracle for misaligned references, reads of uninitialised buffer bytes, out-of-bounds accesses,
-//! provenance and layout errors; the content oracle still runs. Cases come from the same proptest generators.
+//! provenance and layout errors; the content oracle still runs.
 
-use proptest::test_runner::{Config, RngSeed, TestCaseError, TestRunner};
 use vharness::props::c17;
 
 fn main() {
-    let a: Vec<u64> = std::env::args().skip(1).filter_map(|s| s.parse().ok()).collect();
-    let (seed, idx, n) = (a.first().copied().unwrap_or(0), a.get(1).copied().unwrap_or(0), a.get(2).copied().unwrap_or(4));
-    let mut runner = TestRunner::new(Config {
-        cases: n as u32,
-        failure_persistence: None,
-        rng_seed: RngSeed::Fixed(seed.wrapping_mul(7919).wrapping_add(idx).wrapping_add(0x6d69_7269)),
-        max_shrink_iters: 0,
-        ..Config::default()
-    });
-    let done = std::cell::Cell::new(0u64);
-    let r = runner.run(&c17::miri_case(), |case| {
-        match c17::run_plain(&case) {
-            Ok(()) => {
-                done.set(done.get() + 1);
-                Ok(())
-            }
-            Err(f) => Err(TestCaseError::fail(format!("{}: {}", f.signature, f.msg))),
+    let a: Vec<String> = std::env::args().skip(1).collect();
+    let file = a.first().expect("cases file");
+    let idx: usize = a.get(1).and_then(|s| s.parse().ok()).unwrap_or(0);
+    let total: usize = a.get(2).and_then(|s| s.parse().ok()).unwrap_or(1);
+    let text = std::fs::read_to_string(file).expect("cannot read cases");
+    let cases: Vec<c17::Case> = serde_json::from_str(&text).expect("bad cases file");
+    let mut done = 0;
+    for (i, case) in cases.iter().enumerate() {
+        if i % total != idx {
+            continue;
         }
-    });
-    match r {
-        Ok(()) => println!("MIRI-DONE cases={}", done.get()),
-        Err(e) => {
-            println!("MIRI-ORACLE-FAIL {e}");
+        println!("MIRI-CASE {i}");
+        if let Err(f) = c17::run_plain(case) {
+            println!("MIRI-ORACLE-FAIL case={i} {}: {}", f.signature, f.msg);
             std::process::exit(3);
         }
+        done += 1;
     }
+    println!("MIRI-DONE cases={done}");
 }
